@@ -232,6 +232,7 @@ fn static_dim_program(variant: usize) -> (String, String) {
     let is_fn = variant % 2 == 1;
     let mut body: Vec<String> = vec![];
     let mut arrays: Vec<String> = vec![];
+    let mut fixed: Vec<String> = vec![];
     let mut k = 0usize;
     for r in 1..=40usize {
         let indent = 2 + (r * (3 + variant)) % 9;
@@ -245,7 +246,11 @@ fn static_dim_program(variant: usize) -> (String, String) {
             let mut decls: Vec<String> = vec![];
             for v in 0..nvars {
                 k += 1;
-                let d = match (k + variant) % 5 {
+                let d = match (k + variant) % 6 {
+                    5 => {
+                        fixed.push(format!("ZF{}", k));
+                        format!("ZF{}(1 TO 2) AS STRING * 4", k)
+                    }
                     0 => {
                         arrays.push(format!("ZA{}%", k));
                         format!("ZA{}%(1 TO 3)", k)
@@ -270,12 +275,19 @@ fn static_dim_program(variant: usize) -> (String, String) {
     for a in &arrays {
         body.push(format!("  {}(1) = {}(1) + 1: PRINT \"{}\"; {}(1)", a, a, a, a));
     }
+    // arrays of fixed-length strings collect one letter per call
+    for a in &fixed {
+        body.push(format!("  {}(2) = RTRIM$({}(2)) + \"x\": PRINT \"{}[\"; {}(2); \"]\"", a, a, a, a));
+    }
     let mut lines: Vec<String> = vec![];
     let mut expected = String::new();
     for call in 1..=3 {
         lines.push(if is_fn { "ZQ% = ZP%".to_string() } else { "ZP".to_string() });
         for a in &arrays {
             expected.push_str(&format!("{} {} \r\n", a, call));
+        }
+        for a in &fixed {
+            expected.push_str(&format!("{}[{}{}]\r\n", a, "x".repeat(call), " ".repeat(4 - call)));
         }
     }
     lines.push(if is_fn { "FUNCTION ZP% STATIC".to_string() } else { "SUB ZP STATIC".to_string() });
